@@ -370,10 +370,6 @@ Section RepairAll.
       /\ full v buf buf'.
   Proof.
     intros Hblk Hhv Hj Hr Hs Hag Hn.
-    destruct failed as [|e0 ft] eqn:Efailed.
-    { simpl. exists buf, jn, []. split; [reflexivity|]. split; [reflexivity|].
-      intros i Hi. symmetry. rewrite agree_out_spec in Hag. apply Hag. simpl. tauto. }
-    rewrite <- Efailed in *. clear Efailed.
     set (g := fun (acc : list fent * list bid) e =>
                 if fe_bad e then
                   match (if fe_updated_hash e then search_fetch hashf bs nosearch fs0 e else None) with
@@ -392,9 +388,11 @@ Section RepairAll.
       - rewrite app_nil_r in Hag0. repeat split; auto. lia.
       - assert (He : In e failed) by (apply Hl; left; reflexivity).
         destruct (Hblk e He) as [Hb [Ho [Hst Hidx]]].
-        unfold g at 2. rewrite Hb. unfold fe_updated_hash. rewrite Hst. simpl.
         destruct (search_fetch hashf bs nosearch fs0 e) as [x|] eqn:Es.
-        + assert (Ex : x = vnth v (fe_idx e)) by (apply (Hs e x He Es)). subst x. cbn [fst snd].
+        + assert (Ex : x = vnth v (fe_idx e)) by (apply (Hs e x He Es)). subst x.
+          assert (Eg : g (fm0, b0) e = (fm0, set_buf b0 (fe_idx e) (vnth v (fe_idx e)))).
+          { unfold g. rewrite Hb. unfold fe_updated_hash. rewrite Hst, Es. reflexivity. }
+          rewrite Eg.
           edestruct (IH fm0 (set_buf b0 (fe_idx e) (vnth v (fe_idx e)))) as [A [B [C D]]].
           * intros e' He'. apply Hl. right. exact He'.
           * exact Hf0.
@@ -414,14 +412,20 @@ Section RepairAll.
                ++ apply Hi. rewrite map_app. apply in_or_app. left. exact Hin.
                ++ subst i. rewrite Hlen in Hil. lia.
                ++ apply Hi. rewrite map_app. apply in_or_app. right. exact Hin.
-          * repeat split; auto. Show. simpl length. lia.
-        + cbn [fst snd]. edestruct (IH (fm0 ++ [e]) b0) as [A [B [C D]]].
+          * repeat split; auto. simpl length. lia.
+        + assert (Eg : g (fm0, b0) e = (fm0 ++ [e], b0)).
+          { unfold g. rewrite Hb. unfold fe_updated_hash. rewrite Hst, Es. reflexivity. }
+          rewrite Eg.
+          edestruct (IH (fm0 ++ [e]) b0) as [A [B [C D]]].
           * intros e' He'. apply Hl. right. exact He'.
           * intros e' He'. apply in_app_or in He'. destruct He' as [He'|[He'|[]]]; [auto | subst; auto].
           * exact Hlen.
           * rewrite <- app_assoc. exact Hag0.
           * repeat split; auto. rewrite app_length in D. simpl length in *. lia. }
-    unfold repair. destruct failed as [|e1 ft'] eqn:Efailed2; [discriminate|]. rewrite <- Efailed2 in *.
+    unfold repair. destruct failed as [|e1 ft'] eqn:Efailed2.
+    { exists buf, jn, []. split; [reflexivity|]. split; [reflexivity|].
+      intros i Hi. symmetry. rewrite agree_out_spec in Hag. apply Hag. simpl. tauto. }
+    rewrite <- Efailed2 in *.
     fold g.
     specialize (Hfold failed [] buf (fun e H => H) (fun e H => match H with end) eq_refl Hag).
     destruct (fold_left g failed ([], buf)) as [fm1 buf1] eqn:Ef. simpl in Hfold.
